@@ -411,6 +411,51 @@ def bin_rows(kind, result):
     return rows, failing
 
 
+def item_rows(kind, res, vname, verdict):
+    '''tables with one row per compared dataset / status / label tuple / metadata key: the rows
+    (stripped text, highlighted?) the first table of a non-silent rendering must read back as, every
+    flag computed from that row's own verdict, independently of table_repr.  None: no such table.'''
+    if kind in CORR_KINDS:
+        if vname == 'SUMMARY':
+            return None
+        info, oracles = corr_info(kind, res)
+        return [[(col[k].strip(), False) for col in info] + [(str(orc), not orc)]
+                for k, orc in enumerate(oracles)]
+    if kind in ('tasks', 'tests'):
+        from valjean.cosette.task import TaskStatus
+        from valjean.gavroche.diagnostics.stats import TestOutcome
+        enum, okst = (TaskStatus, TaskStatus.DONE) if kind == 'tasks' else (TestOutcome, TestOutcome.SUCCESS)
+        counts = [(st, len(res.classify.get(st, ()))) for st in [okst] + [s for s in enum if s != okst]]
+        total = sum(num for _, num in counts)
+        rows = [[(st.name, st != okst), (percent(num, total), st != okst)] for st, num in counts if num]
+        lone = not verdict and not any(row[0][1] for row in rows)
+        return rows + [[('total', lone), (percent(total, total), lone)]]
+    if kind == 'bylabels':
+        rows = []
+        for row in res.classify:
+            bad = row['OK'] != row['total']
+            if vname == 'SUMMARY' and not bad:
+                continue
+            rows.append([(lab, bad) for lab in row['labels']]
+                        + [(percent(row['OK'], row['total']), bad), (percent(row['KO'], row['total']), bad)])
+        return rows or None
+    if kind == 'meta':
+        test = res.test
+        keys = list(test.all_md)
+        bad = [key for key in keys if not all(res.dict_res[key].values())]
+        if vname == 'SUMMARY':
+            return None
+        if vname == 'DEFAULT':
+            return [[('Metadata:', False), ('OK', False)]] if not bad \
+                else [[('Failed metadata:', False), (', '.join(bad), True)]]
+        if vname == 'INTERMEDIATE' and not bad:
+            return None
+        shown = bad if vname == 'INTERMEDIATE' else keys
+        return [[(key, False)] + [(str(test.all_md[key][nam]).strip(), not res.dict_res[key][nam])
+                                  for nam in test.dmd] for key in shown]
+    return None
+
+
 # --------------------------------------------------------------------------
 # one case: implementation, oracle, Coq text
 
@@ -592,6 +637,23 @@ def run_case(case):
                     if hl_rows != want_hl:
                         rec.fail(f'{where}: highlighted rows {hl_rows}, failing bins {want_hl}',
                                  'highlighted-rows')
+            # ---- tables with one row per dataset / status / label tuple / key: a row (a cell) is
+            #      highlighted exactly when that row's (cell's) own verdict is false
+            want = item_rows(kind, fresh(), vname, verdict)
+            if want is not None:
+                got = doc_tables(doc)
+                if not got:
+                    rec.fail(f'{where}: no table although one row per item is expected', 'item-rows-missing')
+                else:
+                    body = got[0][1]
+                    hl_rows = [i for i, row in enumerate(body) if any(c[1] for c in row)]
+                    want_hl = [i for i, row in enumerate(want) if any(c[1] for c in row)]
+                    if hl_rows != want_hl:
+                        rec.fail(f'{where}: highlighted rows {hl_rows} but the rows whose own verdict is '
+                                 f'false are {want_hl} (rows read back: {body})', 'item-rows-highlight')
+                    elif body != want:
+                        rec.fail(f'{where}: rows read back {body} are not the items with their own '
+                                 f'values and flags {want}', 'item-rows-cells')
     rec.renders = f'({abstract}, {clist(renders)})'
     if detail is not None and case.get('ops'):
         run_ops(rec, case, detail, intern)
@@ -773,8 +835,16 @@ def gen_data_case(rng, kind, big=False):
         levels = [1, 1, 1, 2, 3] if rng.random() < 0.3 else [1]
     else:
         levels = [1, 2, 2] if rng.random() < 0.7 else [2]
+    if kind in CORR_KINDS:
+        nds = rng.choice([1, 2, 2, 3, 3])
     case = {'kind': kind, 'shape': shape, 'bins': [rng.choice('ec') for _ in shape],
             'fail': [rand_fail(rng, nbin, levels) for _ in range(nds)]}
+    if kind in CORR_KINDS and nds > 1 and rng.random() < 0.6:
+        # mixed outcome: some compared datasets pass entirely, at least one is clearly rejected
+        for k in range(nds):
+            case['fail'][k] = [0] * nbin
+        for k in rng.sample(range(nds), rng.randint(1, nds - 1)):
+            case['fail'][k][rng.randrange(nbin)] = 1
     if kind in ('student',):
         case['ndf'] = rng.choice([None, 20, 100])
     if kind in CORR_KINDS:
@@ -870,6 +940,10 @@ CORPUS = [
     {'kind': 'bonf', 'shape': [2, 3], 'bins': ['e', 'e'], 'fail': [[0, 0, 1, 0, 0, 0]], 'ndf': 20},  # builtin min
     {'kind': 'bonf', 'shape': [4], 'bins': ['e'], 'fail': [[0, 2, 0, 0]], 'ndf': 20},   # passes, Student fails
     {'kind': 'holm', 'shape': [4], 'bins': ['c'], 'fail': [[0, 2, 0, 0], [0, 0, 0, 0]], 'ndf': 20},
+    {'kind': 'bonf', 'shape': [3], 'bins': ['e'], 'fail': [[0, 0, 0], [0, 1, 0]], 'ndf': 20},   # only the 2nd fails
+    {'kind': 'holm', 'shape': [3], 'bins': ['c'], 'fail': [[0, 0, 0], [1, 0, 0], [0, 2, 0]], 'ndf': 100},
+    {'kind': 'bonf', 'shape': [2, 2], 'bins': ['e', 'c'], 'fail': [[1, 0, 0, 0], [0, 0, 0, 0], [0, 0, 2, 0]], 'ndf': 20},
+    {'kind': 'holm', 'shape': [], 'bins': [], 'fail': [[0], [1]], 'ndf': 20},
     {'kind': 'tasks', 'counts': []},                                       # empty summary
     {'kind': 'tests', 'counts': []},
     {'kind': 'tasks', 'counts': [['FAILED', 2]]},                          # first row is a failure
